@@ -48,6 +48,7 @@ type xl struct {
 	out     strings.Builder
 	recvPtr string // name of pointer receiver being threaded, or ""
 	scope   map[string]bool // names declared so far in the function being translated (params, receiver, := / var)
+	usesInf bool            // the function being translated mentions math.Inf: it takes a `[ScalarInf α]` instance argument
 }
 
 type bail struct{ msg string }
@@ -427,6 +428,21 @@ func (x *xl) call(c *ast.CallExpr) string {
 								return "(Scalar.sq " + x.expr(c.Args[0]) + ")"
 							}
 						}
+					}
+					if name == "Inf" && len(c.Args) == 1 {
+						// math.Inf(sign) with a constant sign: +Inf for sign >= 0, -Inf otherwise (Go's definition).
+						// Emitted as a constant of the class `ScalarInf` (Model/ScalarInf.lean; the spec must import it):
+						// IEEE ±Inf at Float, and NO global instance at ℝ — theorems quantify over the instance.
+						if tv := x.info().Types[c.Args[0]]; tv.Value != nil {
+							if v, ok := constant.Int64Val(constant.ToInt(tv.Value)); ok {
+								x.usesInf = true
+								if v >= 0 {
+									return "(ScalarInf.posInf : α)"
+								}
+								return "(ScalarInf.negInf : α)"
+							}
+						}
+						x.fail(c, "math.Inf with a non-constant sign")
 					}
 					if l, ok := mathTable[name]; ok {
 						return "(" + l + x.args(c.Args) + ")"
@@ -976,8 +992,13 @@ func (x *xl) funcDecl(pkg *packages.Package, name string) {
 	}
 	lname += fname
 	pos := x.fset.Position(fd.Pos())
+	x.usesInf = false
+	body := indent(x.block(fd.Body.List, tail))
+	if x.usesInf {
+		params = append([]string{"[ScalarInf α]"}, params...)
+	}
 	fmt.Fprintf(&x.out, "/-- %s:%d -/\ndef %s %s : %s :=\n", strings.TrimPrefix(pos.Filename, "/repo/"), pos.Line, lname, strings.Join(params, " "), ret)
-	x.out.WriteString(indent(x.block(fd.Body.List, tail)))
+	x.out.WriteString(body)
 	x.out.WriteString("\n\n")
 }
 
